@@ -422,6 +422,14 @@ func (vc *VC) loadGlobal(st *State, g *ssa.Global) Val {
 		switch classify(t) {
 		case TKInt:
 			v := scalar(vc.P.Var("glob$"+g.Pkg.Pkg.Name()+"."+g.Name(), SInt))
+			if isRefType(t) && !vc.typed[v.T] {
+				// a package-level reference that is only assigned by its package initialiser was allocated
+				// before any function under contract started
+				vc.typed[v.T] = true
+				if a0, ok := vc.heap0[allocKey]; ok {
+					vc.assumeGlobal(vc.P.Le(v.T, a0))
+				}
+			}
 			return v
 		case TKBool:
 			return scalar(vc.P.Var("glob$"+g.Pkg.Pkg.Name()+"."+g.Name(), SBool))
@@ -454,7 +462,11 @@ func (vc *VC) execInstr(fr *frame, st *State, ins ssa.Instruction) {
 	case *ssa.Store:
 		t := x.Addr.Type().Underlying().(*types.Pointer).Elem()
 		if lab, ok := fr.anchors[x]; ok {
-			vc.anchorAsserts(fr, st, lab, map[string]EV{"$value": {V: vc.operand(fr, st, x.Val), T: t}}, x.Pos())
+			extra := map[string]EV{"$value": {V: vc.operand(fr, st, x.Val), T: t}}
+			if fa, isFA := x.Addr.(*ssa.FieldAddr); isFA {
+				extra["$target"] = EV{V: vc.operand(fr, st, fa.X), T: fa.X.Type()}
+			}
+			vc.anchorAsserts(fr, st, lab, extra, x.Pos())
 		}
 		vc.store(fr, st, vc.operand(fr, st, x.Addr), t, vc.operand(fr, st, x.Val), x.Pos())
 	case *ssa.UnOp:
@@ -490,6 +502,10 @@ func (vc *VC) execInstr(fr *frame, st *State, ins ssa.Instruction) {
 			extra := map[string]EV{}
 			for i, a := range x.Call.Args {
 				extra[fmt.Sprintf("$arg%d", i)] = EV{V: vc.operand(fr, st, a), T: a.Type()}
+			}
+			if x.Call.IsInvoke() {
+				// the interface value a method is invoked on
+				extra["$target"] = EV{V: vc.operand(fr, st, x.Call.Value), T: x.Call.Value.Type()}
 			}
 			vc.anchorAsserts(fr, st, lab, extra, x.Pos())
 		}
